@@ -898,7 +898,8 @@ class Converter:
             args, attrs = param_manipulation.separate_input_attributes_from_arguments(
                 op_signature, node.args, kwargs, fill_defaults=False
             )
-            args = [self._translate_opt_expr(x) for x in args]
+            # None stands for an omitted optional input that precedes one given by keyword
+            args = [None if x is None else self._translate_opt_expr(x) for x in args]
             attrs = [self._translate_attr(x, y, op_signature.get(x)) for x, y in attrs.items()]
         else:
             args = [self._translate_opt_expr(x) for x in node.args]
